@@ -126,7 +126,9 @@ func (self *Interpreter) listLiteral(node ast.AnalyzedListLiteralExpression) (*v
 		if i != nil {
 			return nil, i
 		}
-		values = append(values, val)
+		// The element gets a cell of its own, the list must not share the cell of a variable.
+		cell := *val
+		values = append(values, &cell)
 	}
 
 	return value.NewValueList(values), nil
@@ -151,7 +153,9 @@ func (self *Interpreter) objectLiteral(node ast.AnalyzedObjectLiteralExpression)
 		if i != nil {
 			return nil, i
 		}
-		fields[field.Key.Ident()] = fieldValue
+		// The field gets a cell of its own, the object must not share the cell of a variable.
+		cell := *fieldValue
+		fields[field.Key.Ident()] = &cell
 	}
 	return value.NewValueObject(fields), nil
 }
